@@ -246,6 +246,8 @@ func c04HWInterp(c c04HWCase) (v kit.Verdict) {
 		sigExp := c04Accept
 		if hasSig {
 			switch {
+			case tampered && !c04TamperJudged(rq.Tamper):
+				sigExp = c04Unspec
 			case !rq.Signed || tampered:
 				sigExp = c04Reject
 			default:
